@@ -172,15 +172,16 @@ def writers_of(P):
 
 
 def eq_summary(P, gk):
-    """[(j, '->field', k)]: on every path to the exit of function gk the field of the object behind parameter j equals
-    parameter k (stored there, or found equal by the branch taken).  Computed by a plain K4 run of the callee; only small
-    helpers that mention both are tried."""
+    """what a helper establishes on every path to its exit about the object behind a parameter:
+    [(j, '->field', ('param', k))]  the field equals parameter k (stored there, or found equal by the branch taken);
+    [(j, '->field', ('const', c))]  the field holds the constant c.
+    Computed by a plain K4 run of the callee; only small helpers that contain such a store are tried."""
     cache = P.__dict__.setdefault('_eqsum', {})
     if gk in cache:
         return cache[gk]
     cache[gk] = []
     G = P.fn[gk]
-    if G.entry is None or G.exit is None or len(G.params) < 2 or len(G.blocks) > 80:
+    if G.entry is None or G.exit is None or not G.params or len(G.blocks) > 80:
         return []
     pid = {p['id']: i for i, p in enumerate(G.params)}
     cand = False
@@ -190,10 +191,12 @@ def eq_summary(P, gk):
             l = G.ex[G.strip_casts(nd['c'][0])]
             if l['k'] == 'ref' and l['decl'].get('id') in pid:
                 assigned.add(l['decl']['id'])
-            if nd['k'] == 'assign' and nd['op'] == '=' and l['k'] == 'member':
-                r = G.ex[G.strip_casts(nd['c'][1])]
-                if r['k'] == 'ref' and r['decl'].get('id') in pid:
-                    cand = True
+            if nd['k'] == 'assign' and nd['op'] == '=' and l['k'] == 'member' and l.get('arrow'):
+                lb = G.ex[G.strip_casts(l['c'][0])]
+                if lb['k'] == 'ref' and lb['decl'].get('id') in pid:
+                    r = G.ex[G.strip_casts(nd['c'][1])]
+                    if (r['k'] == 'ref' and r['decl'].get('id') in pid) or r['k'] == 'int':
+                        cand = True
     if not cand:
         return []
     A = Analyzer(P, G)
@@ -210,9 +213,14 @@ def eq_summary(P, gk):
                 base, suffix = a[:a.index('->')], a[a.index('->'):]
                 if base.startswith('v') and base[1:].isdigit() and int(base[1:]) in pid and int(base[1:]) not in assigned \
                         and suffix.count('->') == 1 and '[' not in suffix:
-                    here.add((pid[int(base[1:])], suffix, pid[int(b[1:])]))
+                    here.add((pid[int(base[1:])], suffix, ('param', pid[int(b[1:])])))
+        for k, v in env.items():
+            if isinstance(k, str) and isinstance(v, V) and k.startswith('v') and k.count('->') == 1 and '[' not in k and '.' not in k:
+                base, suffix = k[:k.index('->')], k[k.index('->'):]
+                if base[1:].isdigit() and int(base[1:]) in pid and int(base[1:]) not in assigned and v.const() is not None:
+                    here.add((pid[int(base[1:])], suffix, ('const', v.const())))
         common = here if common is None else (common & here)
-    cache[gk] = sorted(common or ())
+    cache[gk] = sorted(common or (), key=str)
     return cache[gk]
 
 
@@ -1399,13 +1407,19 @@ class Analyzer:
         # what a helper establishes on every path between the object behind one parameter and another parameter
         # (`vf->current_link=link`, or the branch that leaves them equal): known at the call site afterwards
         if tg and len(tg) == 1 and tg[0] in self.P.fn and tg[0] != self.P.key(self.F):
-            for (j, suffix, kparam) in eq_summary(self.P, tg[0]):
-                if j >= len(args) or kparam >= len(args):
+            for (j, suffix, what) in eq_summary(self.P, tg[0]):
+                if j >= len(args):
                     continue
                 pj = self.rpath(args[j], env)
                 if not pj or pj.startswith('&'):
                     continue
                 kj = pj + suffix
+                if what[0] == 'const':
+                    self.store(env, kj, V(what[1], what[1], nn=False) if what[1] == 0 else K(what[1]))
+                    continue
+                kparam = what[1]
+                if kparam >= len(args):
+                    continue
                 self.store(env, kj, avals[kparam])
                 ak = self.ex[self.F.strip_casts(args[kparam])]
                 if ak['k'] in ('ref', 'member') and not (ak['k'] == 'ref' and ak['decl'].get('kind') not in ('var', 'param')):
@@ -1562,6 +1576,17 @@ class Analyzer:
             isf = any(self.ex[x].get('t') in ('float', 'double', 'long double') for x in (a, b))
             na = self.restrict(va, op, vb, sb, isf)
             nb = self.restrict(vb, {'<': '>', '<=': '>=', '>': '<', '>=': '<=', '==': '==', '!=': '!='}[op], va, sa, isf)
+            if not isf and op in ('<', '<=', '>', '>='):
+                # a bound that is a copy of another location (`const int parts=info->partitions; look->parts=parts;`)
+                # bounds by that location's symbol as well
+                if op in ('<', '<='):
+                    extra = self._eq_syms(env, b)
+                    if extra:
+                        na = na.copy(lt=na.lt | extra) if op == '<' else na.copy(le=(na.le | extra) - na.lt)
+                else:
+                    extra = self._eq_syms(env, a)
+                    if extra:
+                        nb = nb.copy(lt=nb.lt | extra) if op == '>' else nb.copy(le=(nb.le | extra) - nb.lt)
             if na.is_bottom() or nb.is_bottom():
                 return None
             self.assign_refined(env, a, va, na)
@@ -1684,6 +1709,29 @@ class Analyzer:
         cse = dict(env.get('$cse') or {})
         cse[self.F.s(e)] = (val, frozenset(deps))
         env['$cse'] = cse
+
+    def _eq_syms(self, env, e):
+        """symbols of the locations known equal to lvalue e (K4 equality aliases)"""
+        eq = env.get('$eq')
+        if not eq:
+            return frozenset()
+        e = self.F.strip_casts(e)
+        if self.ex[e]['k'] not in ('ref', 'member'):
+            return frozenset()
+        k = self.path(e, env)
+        out = set()
+        seen = {k}
+        cur = eq.get(k)
+        while cur is not None and cur not in seen:
+            seen.add(cur)
+            if cur.startswith('v') and cur[1:].isdigit():
+                out.add(cur)
+            else:
+                info = self.keyinfo.get(cur)
+                if info and info[0] and not info[0][2]:
+                    out.add(f'{info[0][0]}.{info[0][1]}')
+            cur = eq.get(cur)
+        return frozenset(out)
 
     def sym_of(self, e, env):
         """symbolic name usable as a bound: local variable or struct field"""
